@@ -95,8 +95,8 @@ def bigAlloc : Nat := 1048576
 def maxFrames : Nat := 12
 
 /-- reads frames like `readAll` of the harness.  `stops` = wire offsets after which an accepted frame ends the run. -/
-def readAll (total : Nat) (stops : List Nat) (bounds : Option (List Nat)) (hdrRanges : List (Nat × Nat)) :
-    Nat → Rd → List String → List String
+def readAll (total : Nat) (stops : List Nat) (bounds : Option (List Nat)) (hdrRanges : List (Nat × Nat))
+    (cont : List Nat) : Nat → Rd → List String → List String
   | 0, _, acc => acc.reverse
   | fuel + 1, rd, acc =>
     let pos := total - rd.inp.length
@@ -117,7 +117,14 @@ def readAll (total : Nat) (stops : List Nat) (bounds : Option (List Nat)) (hdrRa
         | some l => if used > 8 + l then s!"!over{ftype}" else ""
         | none => ""
       if e == .blk then (s!"E:blk{big}{over}" :: acc).reverse
-      else (s!"E:{e.str}+{used}{big}{over}" :: acc).reverse
+      else
+        let tok := s!"E:{e.str}+{used}{big}{over}"
+        -- per-frame errors of a frame parsed to its end: reading goes on (as `readAll` of the harness)
+        let recoverable := e == .zero || e == .invhdr || e == .toolong ||
+          ((e == .unlower || e == .dup) && cont.contains pos)
+        if !recoverable || big != "" || over != "" || stops.contains pos ||
+            (match bounds with | some bs => !bs.contains consumed | none => false) then (tok :: acc).reverse
+        else readAll total stops bounds hdrRanges cont fuel r.rd (tok :: acc)
     | .ok f =>
       let l := (declaredLen rd.inp).getD 0
       let delta : Int := (used : Int) - ((8 + l : Nat) : Int)
@@ -125,7 +132,7 @@ def readAll (total : Nat) (stops : List Nat) (bounds : Option (List Nat)) (hdrRa
       if stops.contains pos then ("stop" :: tok :: acc).reverse
       else if (match bounds with | some bs => !bs.contains (total - r.rd.inp.length) | none => false) then
         ("desync" :: tok :: acc).reverse
-      else readAll total stops bounds hdrRanges fuel r.rd (tok :: acc)
+      else readAll total stops bounds hdrRanges cont fuel r.rd (tok :: acc)
 
 /-! ### op parsing -/
 
@@ -197,7 +204,7 @@ def runRt (frames : List Frame) : String :=
           | none => bs
         go rest (wire ++ bs) (s!"w:ok:{hexField shown}" :: acc)
   let (wire, ws) := go frames [] []
-  " ".intercalate ws ++ " / " ++ " ".intercalate (readAll wire.length [] none [] maxFrames { inp := wire } [])
+  " ".intercalate ws ++ " / " ++ " ".intercalate (readAll wire.length [] none [] [] maxFrames { inp := wire } [])
 
 /-! wire items of `st` -/
 
@@ -214,7 +221,39 @@ def lenSpec (spec : String) (truth : Nat) : Option (Nat × Bool) :=
       else none
   | [] => none
 
-/-- returns the wire image and the offsets after which an accepted header frame stops the run. -/
+/-- strict parse of a name/value block into (name, value) pairs: exact count, nothing left over -/
+def strictEntries : Nat → Bytes → Option (List (Bytes × Bytes))
+  | 0, inp => if inp.isEmpty then some [] else none
+  | n + 1, inp =>
+    match rd32 inp with
+    | none => none
+    | some (nl, r1) =>
+      if r1.length < nl then none else
+      match rd32 (r1.drop nl) with
+      | none => none
+      | some (vl, r3) =>
+        if r3.length < vl then none else
+        (strictEntries n (r3.drop vl)).map ((r1.take nl, r3.take vl) :: ·)
+
+def strictBlock (b : Bytes) : Option (List (Bytes × Bytes)) :=
+  match rd32 b with
+  | none => none
+  | some (n, r) => if n > maxNumHeaders then none else strictEntries n r
+
+def goLower (nm : Bytes) : Bytes := lowerGo nm
+
+/-- `lastOnly` of the harness: only the last entry of the block can carry a name error, and its value is empty -/
+def lastOnly (b : Bytes) : Bool :=
+  match strictBlock b with
+  | none => false
+  | some es =>
+    match es.reverse with
+    | [] => false
+    | (_, lv) :: initRev =>
+      let init := initRev.reverse
+      lv.isEmpty && init.all (fun p => p.1 == goLower p.1) && (init.map (·.1)).eraseDups.length == init.length
+
+/-- the wire image under construction, the offsets after which an accepted header frame stops the run, … -/
 structure StAcc where
   wire : Bytes := []
   stops : List Nat := []
@@ -222,6 +261,7 @@ structure StAcc where
   ranges : List (Nat × Nat) := []
   lastStart : Nat := 0
   lastHdr : Bool := false
+  cont : List Nat := []
 
 def buildSt : List String → StAcc → Option StAcc
   | [], a => some { a with bounds := a.wire.length :: a.bounds }
@@ -249,6 +289,7 @@ def buildSt : List String → StAcc → Option StAcc
       let img := be32 (2147483648 + ver * 65536 + typ) ++ be32 (fl * 16777216 + l) ++ fixed ++ blockB
       let stops' := if isHdr && wide then wire.length :: stops else stops
       buildSt rest { a with wire := wire ++ img, stops := stops', lastStart := wire.length, lastHdr := isHdr,
+                            cont := if isHdr && lastOnly blockB then wire.length :: a.cont else a.cont,
                             ranges := if isHdr then (wire.length, wire.length + img.length) :: a.ranges else a.ranges }
     | ["d", sid, fl, spec, data] => do
       let sid ← num? sid 2147483648
@@ -264,7 +305,7 @@ def buildSt : List String → StAcc → Option StAcc
 
 def runSt (toks : List String) : Option String := do
   let a ← buildSt toks {}
-  pure (" ".intercalate (readAll a.wire.length a.stops (some a.bounds) a.ranges maxFrames { inp := a.wire } []))
+  pure (" ".intercalate (readAll a.wire.length a.stops (some a.bounds) a.ranges a.cont maxFrames { inp := a.wire } []))
 
 /-! ### spec oracle -/
 
@@ -343,6 +384,89 @@ def expectedRt' (f : Frame) : Option String :=
     if l.length > maxNumSettings ∨ l.any (fun (_, id, _) => id ≥ 16777216) then none else some (settingsStar flags l)
   | _ => expectedRt f
 
+/-! ### reference reading of well-formed items (what a SPDY reader must return for them) -/
+
+def lowerSafe (nm : Bytes) : Bool :=
+  !nm.isEmpty && nm.all fun b => 33 ≤ b.toNat && b.toNat ≤ 126 && !(65 ≤ b.toNat && b.toNat ≤ 90)
+
+def forbiddenResp : List Bytes :=
+  ["connection", "keep-alive", "proxy-connection", "transfer-encoding"].map bytesOfString
+
+/-- the rendering (without `@…`) every correct reader yields for a well-formed item; `none` = no demand -/
+def refItem (tok : String) : Option String :=
+  match tok.splitOn ":" with
+  | ["c", _, typ, fl, "+0", fixed, block] => do
+    let typ ← typ.toNat?
+    let fl ← fl.toNat?
+    let fx ← bytesOfHex fixed
+    if typ = 6 ∧ block == "_" then
+      match rd32 fx with
+      | some (id, []) => if id ≠ 0 ∧ fl = 0 then some s!"P:{id}:4" else none
+      | _ => none
+    else if typ = 3 ∧ block == "_" then
+      match rd32 fx with
+      | some (sid, r) => match rd32 r with
+        | some (status, []) => if mask31 sid ≠ 0 ∧ status ≠ 0 then some s!"T:{mask31 sid}:{status}:8" else none
+        | _ => none
+      | none => none
+    else if typ = 2 ∧ block != "_" then
+      let b ← bytesOfHex block
+      let es ← strictBlock b
+      match rd32 fx with
+      | some (sid, []) =>
+        if mask31 sid = 0 ∨ fl ≥ 256 then none
+        else if !(es.all fun p => lowerSafe p.1) then none
+        else if (es.map (·.1)).eraseDups.length != es.length then none
+        else if es.any (fun p => forbiddenResp.contains p.1) then none
+        else some s!"R:{mask31 sid}:{fl}:{4 + b.length}:{renderHdrs (es.map fun p => (canonGo p.1, splitNul p.2))}"
+      | _ => none
+    else none
+  | ["d", sid, fl, "+0", data] => do
+    let sid ← sid.toNat?
+    let fl ← fl.toNat?
+    let dt ← bytesOfHex data
+    if sid = 0 ∨ sid ≥ 2147483648 ∨ fl ≥ 256 then none else some s!"D:{sid}:{fl}:{hexField dt}"
+  | _ => none
+
+/-- a header-bearing item whose block is not exactly one well-formed block (or whose window is not exact) may leave
+    bytes behind in the shared decompression stream: nothing is demanded of the frames after it -/
+def pollutes (tok : String) : Bool :=
+  match tok.splitOn ":" with
+  | ["c", _, typ, _, spec, _, block] =>
+    (typ == "1" || typ == "2" || typ == "8") &&
+      (spec != "+0" || (match bytesOfHex block with
+        | some b => block == "_" || (strictBlock b).isNone
+        | none => true))
+  | _ => false
+
+def recoverableTok (t : String) : Bool :=
+  t.startsWith "E:zero" || t.startsWith "E:invhdr" || t.startsWith "E:toolong" || t.startsWith "E:unlower" ||
+    t.startsWith "E:dup"
+
+/-- walk items and the implementation's tokens in step; a well-formed item must be read as `refItem` says — before
+    and, above all, AFTER a per-frame error (the reader has to stand exactly at the next frame boundary, in the wire
+    and in the shared decompression stream). -/
+def refVerdict : List String → List String → Bool → Option String
+  | [], _, _ => none
+  | _, [], _ => none
+  | item :: items, tok :: toks, afterErr =>
+    if pollutes item then none
+    else if tok == "EOF" || tok == "stop" || tok == "desync" || tok == "span" then none
+    else if tok.startsWith "E:" then
+      match refItem item with
+      | some _ => some (if afterErr then "FAIL:boundary-lost-after-error" else "FAIL:misparsed-frame")
+      | none => if recoverableTok tok ∧ !hasSub tok "!" then refVerdict items toks true else none
+    else
+      match tokenDelta tok with
+      | some 0 =>
+        let got := (tok.splitOn "@").headD ""
+        match refItem item with
+        | some want =>
+          if got == want then refVerdict items toks afterErr
+          else some (if afterErr then "FAIL:boundary-lost-after-error" else "FAIL:misparsed-frame")
+        | none => refVerdict items toks afterErr
+      | _ => none
+
 def run (op impl : String) : Ans :=
   let toks := op.splitOn " "
   let implGuard := impl.startsWith "guard:" || impl == "bad-op"
@@ -367,18 +491,32 @@ def run (op impl : String) : Ans :=
       let nonAscii := frames.any fun f => match frameHdrs f with
         | some hs => hs.any fun p => p.1.any (fun b => b.toNat ≥ 128)
         | none => false
+      let exps := frames.map expectedRt'
       let exp := frames.mapM expectedRt'
+      let got := implRead.map starLen
+      -- frame by frame: every in-quantifier frame must read back as written, also after a frame that was refused
+      let perFrame : Option String :=
+        if got.length == frames.length + 1 ∧ got.getLast? == some "EOF" then
+          let rec go : List (Option String) → List String → Bool → Option String
+            | [], _, _ => none
+            | _, [], _ => none
+            | e :: es, g :: gs, afterErr =>
+              match e with
+              | some w =>
+                if g == w then go es gs afterErr
+                else some (if afterErr then "FAIL:boundary-lost-after-error"
+                           else if lenChange then "FAIL:roundtrip-name-length" else "FAIL:roundtrip")
+              | none => go es gs (afterErr || g.startsWith "E:")
+          go exps got false
+        else match exp with
+          | none => none
+          | some es =>
+            if got == es ++ ["EOF"] then none
+            else some (if lenChange then "FAIL:roundtrip-name-length" else "FAIL:roundtrip")
       let verdict :=
         match robustVerdict implRead true with
         | some v => v
-        | none =>
-          match exp with
-          | none => "ok"   -- some frame is outside the round-trip quantifier; only the robustness clauses apply
-          | some es =>
-            let want := es ++ ["EOF"]
-            let got := implRead.map starLen
-            if got == want then "ok"
-            else if lenChange then "FAIL:roundtrip-name-length" else "FAIL:roundtrip"
+        | none => perFrame.getD "ok"
       let hasHdr := frames.any fun f => match frameHdrs f with
         | some hs => !hs.isEmpty
         | none => false
@@ -394,14 +532,23 @@ def run (op impl : String) : Ans :=
       else if !blocksOk then { model, verdict := "skip", tags := ["st", "alphabet"] } else
       let implToks := impl.splitOn " "
       let bigJustified := items.any fun t => t.startsWith "d:" && hasSub t ":="
-      let verdict := (robustVerdict implToks bigJustified).getD "ok"
+      let frameItems := items.filter fun t => t.startsWith "c:" || t.startsWith "d:"
+      let verdict := match robustVerdict implToks bigJustified with
+        | some v => v
+        | none =>
+          -- a truncated image (`cut:`): the last item is not whole
+          let refItems := if items.any (·.startsWith "cut:") then frameItems.dropLast else frameItems
+          (refVerdict refItems implToks false).getD "ok"
+      let afterErrTag := match implToks with
+        | _ => if implToks.any recoverableTok ∧ (implToks.dropWhile (fun t => !recoverableTok t)).length ≥ 2 then ["aftererr"] else []
       let errTag := match implToks.find? (·.startsWith "E:") with
         | some t => [((t.splitOn "+").headD "" |>.splitOn "!").headD ""]
         | none => []
       let okFrames := implToks.filter fun t => !t.startsWith "E:" && t != "EOF" && t != "stop" && t != "desync" && t != "span"
       { model, verdict,
         tags := ["st"] ++ errTag ++ (if okFrames.length ≥ 1 then ["nt"] else [])
-          ++ (if implToks.contains "stop" then ["stop"] else []) ++ (if implToks.contains "desync" then ["desync"] else []) }
+          ++ (if implToks.contains "stop" then ["stop"] else []) ++ (if implToks.contains "desync" then ["desync"] else [])
+          ++ afterErrTag }
   | _ => { model := "bad-op", verdict := "skip", tags := ["bad-op"] }
 
 end BfeVerif.C39
